@@ -40,7 +40,7 @@ def layout(ty, prog):
         return 8, 8
     if ty[0] == "rec":
         return struct_layout([t for _, t in prog.records[ty[1]]], prog)[:2]
-    if ty[0] in ("enum", "opt", "verdict"):
+    if ty[0] in ("enum", "opt", "verdict", "result"):
         size, align = 0, 1
         for _, fts in variants(ty, prog):
             s, a, _ = struct_layout(["u8"] + list(fts), prog)
@@ -65,6 +65,8 @@ def variants(ty, prog):
         return [("Some", [ty[1]]), ("None", [])]
     if ty[0] == "verdict":
         return [("Accept", [ty[1]]), ("Reject", [ty[2]])]
+    if ty[0] == "result":
+        return [("Ok", [ty[1]]), ("Err", [ty[2]])]
     return prog.enums[ty[1]]
 
 
@@ -95,7 +97,7 @@ def write_value(path, ptr, ty, v, prog):
         _, _, offs = struct_layout([t for _, t in prog.records[ty[1]]], prog)
         for (f, t), o in zip(prog.records[ty[1]], offs):
             write_value(path, Ptr(ptr.region, ptr.off + o), t, v[f], prog)
-    elif ty[0] in ("enum", "opt", "verdict"):
+    elif ty[0] in ("enum", "opt", "verdict", "result"):
         tag = v.tag if not isinstance(v.tag, int) else z3.BitVecVal(v.tag, 8)
         path.store(ptr, tag, 1)
         # symbolic tag: only single-payload-variant enums (Option) are passed in: write the payload of the variant that has one
@@ -137,7 +139,7 @@ def mem_equals(path, ptr, ty, v, prog, notes):
         _, _, offs = struct_layout([t for _, t in prog.records[ty[1]]], prog)
         return z3.And([mem_equals(path, Ptr(ptr.region, ptr.off + o), t, v[f], prog, notes)
                        for (f, t), o in zip(prog.records[ty[1]], offs)] or [z3.BoolVal(True)])
-    if ty[0] in ("enum", "opt", "verdict"):
+    if ty[0] in ("enum", "opt", "verdict", "result"):
         tag = path.load(ptr, 1)
         cases = []
         for i, (vn, fts) in enumerate(variants(ty, prog)):
@@ -229,6 +231,23 @@ def host_models():
         return None
 
     H["msub"] = msub
+
+    def opt_res_of(path, name, args):
+        # registered functions that build an Option / Result in Rust: the out-pointer receives the C layout
+        # (tag byte at 0, 4-byte payload at offset 4) of the value the Rust body computes
+        x = args[2]
+        path.events.append(Event("host", name, [x]))
+        if name == "opt_of":
+            tag = z3.If(x & 1 == 1, z3.BitVecVal(0, 8), z3.BitVecVal(1, 8))
+            payload = x ^ 0x5A5A
+        else:
+            tag = z3.If(z3.ULT(x, 0x80000000), z3.BitVecVal(0, 8), z3.BitVecVal(1, 8))
+            payload = z3.If(z3.ULT(x, 0x80000000), x + 7, -x)
+        path.store(args[1], tag, 1)
+        path.store(Ptr(args[1].region, args[1].off + 4), payload, 4)
+        return None
+
+    H["opt_of"] = H["res_of"] = opt_res_of
 
     def mk(path, name, args):
         path.events.append(Event("host", "mk", [args[2]]))
